@@ -2,7 +2,10 @@
 
 package search
 
-import "github.com/paulsonkoly/chess-3/transp"
+import (
+	"github.com/paulsonkoly/chess-3/heur"
+	"github.com/paulsonkoly/chess-3/transp"
+)
 
 // This file is only compiled with the `verif` build tag. It exposes a digest
 // of the persistent search state to the verification harness in /verif and
@@ -18,3 +21,7 @@ func (s *Search) VerifDigest() (tt, ranker uint64, gen int) {
 // VerifTable gives the harness access to the transposition table the search
 // uses, so that it can be put into a chosen state before a search.
 func (s *Search) VerifTable() *transp.Table { return s.tt }
+
+// VerifRanker gives the harness access to the move ordering stores the search
+// uses, so that they can be driven into a chosen state before a search.
+func (s *Search) VerifRanker() *heur.MoveRanker { return &s.ranker }
